@@ -537,6 +537,23 @@ def wfTemplate (keys : Keys) (maybeEmpty : List String) (ls : List SegLine) : Bo
     && (removable keys maybeEmpty ls).all (fun L => !L.isEmpty)
     && wfLines keys maybeEmpty (removable keys maybeEmpty ls) ls
 
+/-! ### cutting a template text into segments (the rule of verif-extract, for arbitrary texts) -/
+
+def flushLit (lit : Bytes) : SegLine := if lit.isEmpty then [] else [("", lit)]
+
+/-- at every position the first key, in table order, that is a prefix of the text starts a
+variable; `skip` = bytes of a key still to be passed over -/
+def segLineAux (keys : Keys) : Nat → Bytes → Bytes → SegLine
+  | _, [], lit => flushLit lit
+  | k + 1, _ :: r, lit => segLineAux keys k r lit
+  | 0, b :: r, lit =>
+    match keys.find? fun nk => !nk.2.isEmpty && nk.2.isPrefixOf (b :: r) with
+    | some nk => flushLit lit ++ (nk.1, []) :: segLineAux keys (nk.2.length - 1) r []
+    | none => segLineAux keys 0 r (lit ++ [b])
+
+def segmentText (keys : Keys) (text : Bytes) : List SegLine :=
+  (splitNl text).map fun l => segLineAux keys 0 l []
+
 /-- the key table of `jobScript` (compared with the regenerated `Gen.jobScriptKeys`) -/
 def paramKeys : Keys := paramSpec.map fun p => (p.1, varKey p.1)
 
